@@ -287,6 +287,13 @@ pub fn field_mutations(base: &[u8], full16: bool) -> Vec<Mutn> {
             out.push(Mutn::Extend(n, f));
         }
     }
+    // extensions that give the file more sectors than its FAT sectors have cells for
+    let cap = p.fat_sectors.len() * cells;
+    if cap >= nsec as usize {
+        for k in [0usize, 1, 2, cells] {
+            out.push(Mutn::Extend((cap - nsec as usize + k) * sl, 0));
+        }
+    }
     out
 }
 
